@@ -23,7 +23,12 @@ pub fn to_bytes<T: cbor_event::se::Serialize>(data_item: &T) -> Vec<u8> {
 
 pub fn from_bytes<T: Deserialize>(data: &Vec<u8>) -> Result<T, DeserializeError> {
     let mut raw = Deserializer::from(std::io::Cursor::new(data));
-    T::deserialize(&mut raw)
+    let value = T::deserialize(&mut raw)?;
+    // CBOR-in-CBOR (inline datum, script reference): the byte string holds exactly one item
+    if (raw.as_ref().position() as usize) < data.len() {
+        return Err(DeserializeFailure::CBOR(cbor_event::Error::TrailingData).into());
+    }
+    Ok(value)
 }
 
 #[wasm_bindgen]
